@@ -97,7 +97,7 @@ def run(ctx, chk):
             t = dec.blocks[i]["term"]
             if t["t"] == "call" and callee(t).endswith(("::checked_mul", "::checked_add")):
                 checked.add(callee(t).rsplit("::", 1)[-1])
-        closures = [c_ for c_ in zb.bodies.values() if c_.raw.get("parent") == dec.id]
+        closures = [c_ for c_ in zb.bodies.values() if c_.raw.get("parent") == dec.id or c_.id.startswith(dec.id + "::{closure")]
         for cb in closures:
             for _, t in cb.calls():
                 if callee(t).endswith(("::checked_mul", "::checked_add")):
@@ -130,7 +130,9 @@ def run(ctx, chk):
                     "the digit accumulator is advanced by unchecked arithmetic %s (checked ops found: %s): digits that do not fit "
                     "would wrap" % (plain, sorted(checked)), "checked_mul/checked_add only", dec.sp())
         # None -> Err: an ok_or + `?` whose Err edge returns
-        okor = [t for _, t in dec.calls() if callee(t) == "core::option::Option::<T>::ok_or"]
+        # (the conversion may sit in the closure of `try_fold`: its Err ends the fold and the `?` outside returns it)
+        okor = [t for b_ in [dec] + closures for _, t in b_.calls()
+                if callee(t) in ("core::option::Option::<T>::ok_or", "core::option::Option::<T>::ok_or_else")]
         resid = [t for _, t in dec.calls() if callee(t).endswith("FromResidual::from_residual") and t["dest"]["l"] == 0]
         as_error = bool(okor) and bool(resid)
         if not as_error:
